@@ -42,3 +42,19 @@ package cfg
 //@   pure
 //@   requires 0 <= i && i < len(paths) && 0 <= j && j < len(paths)
 //@   ensures result == (len(paths[i]) < len(paths[j]))
+
+// VerifyGroupNumbers (C13 / C17): what mask.maskValue and the substitution regex
+// filter require of their group lists is what this validation returns - every
+// group number within 0..totalGroups (otherwise the process exits at start-up).
+
+//@ func VerifyGroupNumbers
+//@   option allow-exit yes
+//@   requires totalGroups >= 0
+//@   ensures allrange(result, 0, totalGroups + 1)
+//@   loop 1 invariant rangeindex < len(groups) && allrange(groups[:rangeindex+1], 0, totalGroups + 1)
+//@   callee isGroupsUnique(g) (r)
+//@     pure
+//@   callee Ints(k, v)
+//@     pure
+//@   callee Int(k, v)
+//@     pure
